@@ -605,11 +605,20 @@ def origin_of(u, line, col=1):
             # line within the ghost block
             gl = segtext.count('\n', m.start(), local)
             return ('ghost[%s]+%d' % (lab, gl), owner)
-    # real source: count newlines of erased text before local
-    pre = erase(segtext[:local]) if '/*@' in segtext[:local] else segtext[:local]
-    # erase() may fail on a partial sentinel; fall back
-    srcline = o[2] + pre.count('\n')
+    # real source: count source newlines before `local`, skipping ghost blocks and undoing rewrites
+    srcline = o[2]; pos = 0
+    for m in SENT.finditer(segtext):
+        if m.start() >= local: break
+        srcline += segtext.count('\n', pos, m.start())
+        if m.group(0).startswith('/*@R'):
+            srcline += base64.b64decode(m.group(2)).decode().count('\n')
+        pos = m.end()
+    if pos <= local:
+        srcline += segtext.count('\n', pos, local)
     return ('%s:%d' % (o[1], srcline), owner)
+
+
+SENT = re.compile(r'/\*@G .*?\*/.*?/\*@/G\*/|/\*@R(\w+) ([A-Za-z0-9+/=]*)\*/.*?/\*@/R\*/', re.S)
 
 
 def scan_trusted(text):
